@@ -285,3 +285,39 @@ claim("C10", "other",
       "angle-role rule and exact identity of the kernel exponent (R-ANGLE), call-site roles of remove_pbc (R-PBC), "
       "normalisation forms (R-ALG), weight/neighbour slice alignment (R-ALIGN), sibling agreement of the two arms (R-SIB)",
       "DESIGN.md section 4, C10")
+
+claim("C15", "other",
+      "Decides the form of every measure in static.vector for all inputs: participation ratio = (sum e.e)^2/(N sum (e.e)^2) as an "
+      "exact identity with uninterpreted reductions; alignment = mean, phase quotient = sum d / sum |d|, of d_ij = e_i.e_j over "
+      "columns 1..cn_i of row i; divergence = mean of r_ij.u_ij and curl = sum r_ij x u_ij / cn_i (r first) with r_ij = "
+      "remove_pbc(positions[nbrs] - positions[i], snapshot cell, caller's mask) and u_ij gathered with the same slice and "
+      "centre; vibrability = sum over modes k (columns of the eigenvector matrix reshaped (N,-1)) of |e_k,i|^2/omega_k^2 from 0; "
+      "Fourier split: F = the FFT columns of conditional_sq(snapshot, qvector, vector), u = (q0..) / |q| from the same table, "
+      "L_n = u_n (u_n . F_n), T := F - L (hence F = L + T and S = S_L + S_T by construction), S_T / S_L = Re sum X conj X, table "
+      "rounded before the per-|q| average of (Sq, Sq_T, Sq_L), CSV = returned average, no in-place operation on DataFrame "
+      ".values; correlation variant: frame n decomposed with the field of frame n, each of FFT / T_FFT / L_FFT time-correlated "
+      "per wave vector over the frames in order. Bounds [1/N, 1] and [-1, 1] follow from the forms (Cauchy-Schwarz) and are not "
+      "evaluated. Not decided: numerical values, pandas join/groupby semantics.",
+      "Trusted: conditional_sq (C13), time_correlation (C14), remove_pbc (C02), read_neighbors (C05); numpy cross/dot semantics; "
+      "idiom tables of pmsa/checks/c15.py.",
+      "exact algebra with uninterpreted reductions (R-ALG), neighbour-slice and gather alignment rules (R-IDX, R-ALIGN), call-site "
+      "roles of remove_pbc (R-PBC), read-only-view effect rule (R-EFFECT), loop-domain and call-argument rules (R-LOOPDOM)",
+      "DESIGN.md section 4, C15")
+
+claim("C17", "other",
+      "Decides the form of the four local order parameters for all inputs. S2: integrand (g ln g - g + 1) r^(d-1) integrated by "
+      "the trapezoid rule over the bin centres (routine must resolve in the installed numpy), prefactor -(d-1) pi rho with rho = "
+      "N/prod(L), bin centres k dr + dr/2, shell norms 2 pi r rho / 4 pi r^2 rho, Gaussians centred at minimum-image pair "
+      "distances (row i deleted, frame's cell, instance mask) with width sigmas[type_i-1, type_j-1] where type_j carries the same "
+      "deletion and selection as the distances, value stored at [n, i], cached and returned. Tetrahedral: candidates = "
+      "argpartition prefix holding the 5 smallest distances, self removed by index, all six pairs j<k, pair term "
+      "(r_j.r_k/(|r_j||r_k|) + 1/3)^2 on the imaged vectors whose norms were used for the selection, result 1 - 3/32 sum. "
+      "Nematic (d=2): all four entries of Q = (d u u^T - I)/2, kronecker = [i==j], neighbour average exactly when a list is given, "
+      "scalar sqrt(d/(d-1) tr(QQ)) or 2 lambda_max. Gyration (2D, 3D): coordinates centred out of place, all entries of "
+      "S_mn = sum p_m p_n / N assigned, eigenvalues sorted ascending, Rg, asphericity, acylindricity, relative shape anisotropy "
+      "and fractal dimension as exact identities in the eigenvalues. Not decided: values on perfect lattices, eig/eigh accuracy.",
+      "Trusted: grid_gaussian and spatial_average (C16), remove_pbc (C02), numpy argpartition/delete/trace/eig semantics; idiom "
+      "tables of pmsa/checks/c17.py; selection-pipeline interpreter shared with C05.",
+      "exact algebra of closed forms (R-ALG), selection-pipeline interpretation (R-SELECTK), finite enumeration of constant index "
+      "sets (R-LOOPDOM), gather/selection alignment (R-ALIGN), call-site roles of remove_pbc (R-PBC), API resolution (R-API)",
+      "DESIGN.md section 4, C17")
